@@ -126,7 +126,7 @@ impl Check for C07 {
     }
     fn plan(&self, tier: Tier) -> Plan {
         let quick = tier == Tier::Quick;
-        Plan { cases: if quick { 240 } else { 5000 }, max_tape: 260, min_slots: 4, max_slots: 31, shard_cases: 10, shard_timeout_s: if quick { 300 } else { 900 }, max_shrink_iters: 150, ..Plan::default() }
+        Plan { cases: if quick { 1600 } else { 16_000 }, max_tape: 260, min_slots: 4, max_slots: 31, shard_cases: 10, shard_timeout_s: if quick { 300 } else { 900 }, max_shrink_iters: 150, ..Plan::default() }
     }
     fn abort_is_violation(&self) -> bool {
         true
@@ -541,7 +541,7 @@ impl Check for C08 {
     }
     fn plan(&self, tier: Tier) -> Plan {
         let quick = tier == Tier::Quick;
-        Plan { cases: if quick { 30_000 } else { 300_000 }, max_tape: 12, min_slots: 2, max_slots: 31, shard_cases: if quick { 1900 } else { 7000 }, max_shrink_iters: 1500, ..Plan::default() }
+        Plan { cases: if quick { 90_000 } else { 900_000 }, max_tape: 12, min_slots: 2, max_slots: 31, shard_cases: if quick { 1900 } else { 7000 }, max_shrink_iters: 1500, ..Plan::default() }
     }
     fn abort_is_violation(&self) -> bool {
         true
